@@ -161,6 +161,7 @@ type sample struct {
 	ContactMs float64 `json:"contact_ms"`
 	Never     bool    `json:"never"`
 	AtNs      int64   `json:"at"` // monotonic-ish offset of the sample (ns since worker start)
+	LastLog   uint64  `json:"last_log,omitempty"` // raft's last_log_index statistic of the node
 }
 
 type obs struct {
@@ -192,6 +193,13 @@ type obs struct {
 	TermCI    int64   `json:"term_ci,omitempty"`    // linearizable: node's raft term when the read had just sampled the commit index (hook), 0 = point not reached
 	TermVL    int64   `json:"term_vl,omitempty"`    // linearizable: node's raft term when the quorum had just confirmed leadership (hook), 0 = point not reached
 	Disturb   string  `json:"disturb,omitempty"`    // what was done to the leadership while the read was stalled at a hook point
+	// catch-up scenarios: index of the newest write that (1) the harness issued on the
+	// leader and saw acknowledged while the node was cut off / on a slow link and (2)
+	// is in the node's own raft log (index <= last_log_index) - i.e. the newest
+	// command entry the node is known to have been sent, established without the
+	// node's command_commit_index statistic. 0 = none / not tracked.
+	SentCmdB uint64 `json:"sent_cmd_b,omitempty"`
+	SentCmdA uint64 `json:"sent_cmd_a,omitempty"`
 }
 
 type scnResult struct {
@@ -206,10 +214,11 @@ type scnResult struct {
 var scnKinds = []string{"steady", "strict-lag", "partition", "restart", "leader-move", "strict-lag", "lin-apply", "partition-leader"}
 
 func run(c *vf.Ctx) {
-	c.Rule("(a) every point of the grid last-contact age (24 values incl. never/negative) x freshness (6) x strict (2) x appended-at zero/non-zero x (fsmIndex,commitIndex) (7 pairs: equal, behind, ahead) x apply-minus-append (30 values incl. exact bounds +-1ns); points whose freshness lies within +-20 ms of the age interval the wall-clock read could have seen are skipped; non-trivial = bound set and last contact within it (decided by the strict clause). (b) seeded scenarios on a live leader+follower+non-voter cluster (steady levels, leadership move with concurrent weak reads, partition of follower/non-voter/leader, apply lag on one node's FSM goroutine via the fsm.apply.entry hook, follower restart, linearizable read racing a delayed apply, and linearizable reads stalled at the hook points linread.after_commit_index / linread.after_verify_leader while the node loses its leadership by transfer or isolation and, in most variants, regains it in a later term, with and without writes acknowledged by the interim leader - every variant in every run); Store.Query called directly on each node for every level; non-trivial = scenario in which at least one call received a must-serve/must-refuse verdict from the sampled state")
+	c.Rule("(a) every point of the grid last-contact age (24 values incl. never/negative) x freshness (6) x strict (2) x appended-at zero/non-zero x (fsmIndex,commitIndex) (7 pairs: equal, behind, ahead) x apply-minus-append (30 values incl. exact bounds +-1ns); points whose freshness lies within +-20 ms of the age interval the wall-clock read could have seen are skipped; non-trivial = bound set and last contact within it (decided by the strict clause). (b) seeded scenarios on a live leader+follower+non-voter cluster (steady levels, leadership move with concurrent weak reads, partition of follower/non-voter/leader, apply lag on one node's FSM goroutine via the fsm.apply.entry hook, follower restart, linearizable read racing a delayed apply, and linearizable reads stalled at the hook points linread.after_commit_index / linread.after_verify_leader while the node loses its leadership by transfer or isolation and, in most variants, regains it in a later term, with and without writes acknowledged by the interim leader - every variant in every run; catch-up: 3-5 writes acknowledged by the leader while the non-voter is cut off for >= 1.6 s, or issued concurrently over a slowed leader->follower link, so that the node is sent several command entries in one request, its FSM goroutine delayed 0.6-0.9 s per entry, strict/non-strict reads with bounds below and above the delay fired throughout the catch-up); Store.Query called directly on each node for every level; non-trivial = scenario in which at least one call received a must-serve/must-refuse verdict from the sampled state")
 	c.Assume("the spec in specStale is a faithful reading of the property text; 'behind' = applied command index < index of the newest command entry the node was sent")
 	c.Assume("a node 'believes it is leader' iff Store.IsLeader(); a weak read is only judged when IsLeader was false before and after the call and no leadership observation was delivered to the node in between (re-read 400 ms later)")
 	c.Assume("last-contact age during a call lies between max(0, age_after - elapsed) and age_before + elapsed, ages taken from raft's own last_contact statistic; verdicts need 20 ms clearance from the bound, otherwise the call is not judged")
+	c.Assume("catch-up scenarios: a write the leader acknowledged to the harness at raft index W is a command entry; if W <= the node's raft last_log_index statistic (before and after the call) the node has been sent it, so with fsm_index < W the node is behind whatever its command_commit_index statistic says")
 	c.Assume("strict verdicts only when fsm_index, command_commit_index, fsm_update_time and leader_appended_at_time (Store.Stats) were identical before and after the call")
 	c.Assume("the raft term reported by Store.Stats never decreases; for every linearizable read the term is sampled on the reading goroutine at the hook right after the commit index was sampled and at the hook right after the quorum confirmed leadership; only a served read with two different non-zero samples is a violation")
 	if c.ReplayFile != "" {
@@ -222,6 +231,7 @@ func run(c *vf.Ctx) {
 
 	nScn := c.N(32, 480)
 	nLin := c.N(6, 90) // "lin-term-change" scenarios, case numbers from linTermBase
+	nCu := c.N(4, 48)  // "catch-up" scenarios, case numbers from catchUpBase
 	tmp := vf.TempDir("c16")
 	defer os.RemoveAll(tmp)
 	par := 4
@@ -235,6 +245,11 @@ func run(c *vf.Ctx) {
 		if nLin > 0 && i%(nScn/nLin) == 0 && len(cases)-i-1 < nLin {
 			cases = append(cases, linTermBase+len(cases)-i-1)
 		}
+	}
+	for k := 0; k < nCu; k++ {
+		// spread over the list so that they overlap with cheaper scenarios
+		at := (2*k + 1) * len(cases) / (2 * nCu)
+		cases = append(cases[:at], append([]int{catchUpBase + k}, cases[at:]...)...)
 	}
 	for _, i := range cases {
 		wg.Add(1)
@@ -534,8 +549,19 @@ func judgeNone(c *vf.Ctx, r scnResult, o obs, desc string) (string, string, stri
 	lag := time.Duration(o.B.UpdNs - o.B.AppNs)
 	strictRefuse, strictServe := false, !o.Strict
 	why := ""
+	// "behind" established independently of the node's own bookkeeping: a write the
+	// leader acknowledged to the harness is in this node's raft log (before and
+	// after the call) and its index is above the node's applied index.
+	sentBehind := o.SentCmdB != 0 && o.SentCmdB == o.SentCmdA && o.B.FsmIdx < o.SentCmdB
 	if o.Strict && stable {
 		behind := o.B.FsmIdx < o.B.CmdIdx
+		if sentBehind {
+			c.Count("none_strict_judged_behind_by_log_contents", 1)
+			if !behind {
+				c.Count("none_strict_behind_by_log_contents_but_not_by_command_commit_index", 1)
+			}
+			behind = true
+		}
 		if o.B.AppNs != 0 && behind && lag > bound {
 			strictRefuse = true
 		} else {
@@ -554,6 +580,9 @@ func judgeNone(c *vf.Ctx, r scnResult, o obs, desc string) (string, string, stri
 	}
 	state := fmt.Sprintf(" sampled state: fsm_index=%d command_commit_index=%d apply-minus-append=%s contact before/after=%.0f/%.0f ms never=%v/%v elapsed=%s leader_fsm=%d stable=%v",
 		o.B.FsmIdx, o.B.CmdIdx, lag, o.B.ContactMs, o.A.ContactMs, o.B.Never, o.A.Never, el, o.LeaderFsm, stable)
+	if o.SentCmdB != 0 || o.SentCmdA != 0 {
+		state += fmt.Sprintf(" newest acknowledged write in the node's raft log before/after=%d/%d (last_log_index %d/%d)", o.SentCmdB, o.SentCmdA, o.B.LastLog, o.A.LastLog)
+	}
 	switch {
 	case contactRefuse || strictRefuse:
 		reason := "no-contact-within-bound"
